@@ -207,14 +207,14 @@ _patch('C04', 'level_note', 'Not decided: PopHandler emission on every exit path
        'Not decided: PopHandler emission on every exit path (Compiler), Vm::stack_unwind and the execute loop around Fiber::stack_unwind, the A-hist precondition of pause_unwind, the raw-pointer stores of stack_unwind (one stub).')
 CHECKS['C04']['technique'] = 'Verus contracts on handler depth (apply_stack_effects), handler jump encoding (encode), the exception op handlers, the real Fiber handler search (stack_unwind, pause_unwind, finish_unwind) and the native-callback hooks; property-level depth obligation kept as a listed finding'
 _patch('C06', 'level_text', 'and max_slots covers every simulated depth. ',
-       'and max_slots covers every simulated depth; the glue function peephole_compile is verified against exactly these callee contracts (pipeline unit: every call-site precondition, slice bound and the final length assertion), with compiler-output shape assumed once by name at the composition point; 67 real op handlers are tied to the effect table entry of their opcode (O-06.7). ')
+       'and max_slots covers every simulated depth; the glue function peephole_compile is verified against exactly these callee contracts (pipeline unit: every call-site precondition, slice bound and the final length assertion), with compiler-output shape assumed once by name at the composition point; 68 real op handlers are tied to the effect table entry of their opcode (O-06.7). ')
 _patch('C12', 'level_text', 'termination and absence of index/overflow panics are proved too.',
        'termination and absence of index/overflow panics are proved too. The abstract machine meaning of Get/Set Local, Box, Capture is what the real handlers do (ops unit), and peephole_compile builds the function from the optimised program (pipeline unit).')
 _patch('C15', 'level_text', 'D7 (u8 drop counter overflow) was found here and fixed.',
        'D7 (u8 drop counter overflow), D15 (u16 line overflow in emit_byte: a file of any length now compiles) and D16 (todo!() for more than 65535 labels in peephole_compile) were found here and fixed; peephole_compile itself is total under the named shape assumptions.')
 _patch('C16', 'level_text', 'Only these handlers are decided.',
-       'Calls: anything that is not callable raises; call / call_closure push no frame at or above MAX_FRAME_SIZE whatever the history (D12 fixed); call_native runs a native body only behind Native::check_if_valid_call, which admits exactly what the declared signature admits; op_inherit, chan(n) for every n (D14 fixed), exit() inside native callbacks (D18 fixed) and errors leaving native callbacks (D17 fixed: memory safety) are decided.')
-_patch('C16', 'level_text', 'For the ~45 real op handlers', 'For the 67 real op handlers')
+       'Calls: anything that is not callable raises; call / call_closure push no frame at or above MAX_FRAME_SIZE whatever the history (D12 fixed); call_native runs a native body only behind Native::check_if_valid_call, which admits exactly what the declared signature admits; op_inherit, chan(n) for every n (D14 fixed), exit() inside native callbacks (D18 fixed), string interpolation of values whose str() is not a string (D19 fixed) and errors leaving native callbacks (D17 fixed: memory safety) are decided.')
+_patch('C16', 'level_text', 'For the ~45 real op handlers', 'For the 68 real op handlers')
 _patch('C16', 'level_note', 'Not decided: native bodies and signature gate, call_native, resolve_call/call/call_closure and the frame limit, recursion through callbacks, errors while handling.',
        'Not decided: the ~150 native bodies themselves (that each assumes no more than its declared signature), the front end (C15), debug-only assert_roots accounting. One float lemma used by op_buffered_channel is discharged by a complete Kani harness over all f64.')
 CHECKS['C16']['technique'] = 'Verus: internal_error / todo! have precondition false and every unchecked access has a precondition, so each covered real function is proved never to reach a host panic; contracts on the real call dispatcher, frame limit, native gate, handler search and native-callback hooks'
